@@ -59,6 +59,11 @@ def cases(draw):
     if kind in ("frequency", "daily_volume"):
         c["span_days"] = draw(st.one_of(st.integers(1, 40).map(float), st.sampled_from([0.5, 1.25, 2.5, 366.0, 400.0]),
                                         st.integers(300, 800).map(float)))
+        if draw(st.floats(0, 1)) < 0.3:
+            # the same span written as a sum in mixed units (1 day + 7 hour is 30.999999999999996 h for pint)
+            d_, h_ = draw(st.integers(0, 20)), draw(st.integers(1, 23))
+            c["span_parts"] = [d_, h_, draw(st.sampled_from(["hour", "s", "min"]))]
+            c["span_days"] = d_ + h_ / 24.0
         c["hours"] = draw(st.one_of(st.none(), st.lists(st.integers(0, 23), min_size=1, max_size=5, unique=True)))
         if kind == "daily_volume":
             c["hours"] = c["hours"] or [draw(st.integers(0, 23))]
@@ -130,6 +135,9 @@ def check(c, ctx):
             nontrivial = len(c["values"]) >= 25 or start.hour != 0
         elif kind in ("frequency", "daily_volume"):
             span = c["span_days"] * u.day
+            if c.get("span_parts"):
+                d_, h_, unit_ = c["span_parts"]
+                span = d_ * u.day + {"hour": h_ * u.hour, "s": h_ * 3600 * u.s, "min": h_ * 60 * u.min}[unit_]
             if kind == "frequency":
                 obj = tb.create_hourly_usage_from_frequency(span, c["volume"], c["frequency"], c["active_days"],
                                                             c["hours"], start, u(unit))
@@ -140,6 +148,8 @@ def check(c, ctx):
                 freq, days, vol = "daily", None, c["volume"] / len(c["hours"])
             df = obj.value
             n_expected = int(math.floor(c["span_days"] * 24 + 1e-9)) + 1
+            if c.get("span_parts"):
+                n_expected = c["span_parts"][0] * 24 + c["span_parts"][1] + 1
             probs += check_timeline(df, start, unit, n_expected)
             hours = c["hours"] if c["hours"] is not None else [0]
             if days is None:
